@@ -87,6 +87,7 @@ pub mod c10;
 pub mod c12;
 pub mod c13;
 pub mod c17;
+pub mod c18;
 pub mod c19;
 
 pub fn registry() -> Vec<(&'static str, &'static str, fn())> {
@@ -102,6 +103,7 @@ pub fn registry() -> Vec<(&'static str, &'static str, fn())> {
     c12::register(&mut v);
     c13::register(&mut v);
     c17::register(&mut v);
+    c18::register(&mut v);
     c19::register(&mut v);
     v
 }
